@@ -5,7 +5,8 @@ patch="$1"; prop="$2"; tier="${3:-quick}"
 cd /repo || exit 2
 if [ -n "$(git status --porcelain)" ]; then echo "repo not clean"; exit 2; fi
 git apply "$patch" || { echo "patch does not apply"; exit 2; }
-cd /verif && ./check "$prop" --tier "$tier" 2>&1 | tail -6
+mkdir -p /verif/.work/seed_ev /verif/.work/seed_rp
+cd /verif && VERIF_EVIDENCE_DIR=/verif/.work/seed_ev VERIF_REPLAY_DIR=/verif/.work/seed_rp ./check "$prop" --tier "$tier" 2>&1 | tail -6
 rc=${PIPESTATUS[0]}
 git -C /repo checkout -- . && git -C /repo clean -fdq
 echo "seed check rc=$rc"
